@@ -43,11 +43,10 @@ Definition bf (k : fid) := binary_float (kprec k) (kemax k).
 
 (* spec_float -> Flocq float of format k (NaN if the datum is not a valid float of k) *)
 Definition sf2b (k : fid) (x : sf) : bf k :=
-  match SpecFloat.valid_binary (kprec k) (kemax k) x as b
-        return SpecFloat.valid_binary (kprec k) (kemax k) x = b -> bf k with
-  | true => fun H => SF2B x H
-  | false => fun _ => B754_nan
-  end eq_refl.
+  match Bool.bool_dec (SpecFloat.valid_binary (kprec k) (kemax k) x) true with
+  | left H => SF2B x H
+  | right _ => B754_nan
+  end.
 
 Definition op2 (k : fid) (f : bf k -> bf k -> bf k) (x y : sf) : sf := B2SF (f (sf2b k x) (sf2b k y)).
 Definition fadd k := op2 k (Bplus mode_NE).
